@@ -2,7 +2,7 @@
 From Coq Require Import List NArith Bool Lia.
 From Verif Require Import model.Hub proofs.Hub_basics proofs.Hub_wf proofs.Hub_easy proofs.Hub_corollaries proofs.Hub_pending
   proofs.Hub_transient_frame proofs.Hub_transient_bus proofs.Hub_transient_nr proofs.Hub_transient_nr2 proofs.Hub_transient_nr4 proofs.Hub_transient_nr5
-  proofs.Hub_isolation proofs.Hub_transient_hist proofs.Hub_transient_join.
+  proofs.Hub_isolation proofs.Hub_transient_hist proofs.Hub_transient_join proofs.Hub_transient_initial.
 Import ListNotations.
 Open Scope N_scope.
 
@@ -71,3 +71,81 @@ Proof.
   destruct (ri_run_all ops (init limits gated) g0 (wf_init _ _) (inv_init _ _) (ti_init _ _) (busnt_init _ _) (busok_init _ _) (ri_init _ _)) as (W & Iv & I).
   now apply ri_replica_ok.
 Qed.
+
+(* RI in every reachable state, for the ghost computed along the history *)
+Corollary ri_reachable limits gated ops :
+  RI (run (init limits gated) ops) (snd (grun (init limits gated, g0) ops)).
+Proof.
+  destruct (ri_run_all ops (init limits gated) g0 (wf_init _ _) (inv_init _ _) (ti_init _ _) (busnt_init _ _) (busok_init _ _) (ri_init _ _)) as (_ & _ & I).
+  rewrite grun_hub in I. exact I.
+Qed.
+
+(* what a resume flushes: the queue of a disconnected member, replayed over its replica at the time of the cut, gives
+   the data of the room - in every reachable state (so in the state the resume finds) *)
+Corollary queued_notices_replay_to_data limits gated ops x s k :
+  let st := grun (init limits gated, g0) ops in
+  get_sess (fst st) x = Some s -> is_virtual (s_kind s) = false -> s_room s = Some k -> s_conn s = None ->
+  exists r, room_of (fst st) k = Some r /\ replayT (s_pending s) (g_rep (snd st) x) = Some (snd k, r_transient r).
+Proof.
+  cbv zeta. intros Hs Hv Hk _. destruct (replica_converges_history limits gated ops) as [_ R].
+  destruct (R x s k Hs Hv Hk) as (r & d & Hr & Hd & He & _). exists r. split; [exact Hr|]. now rewrite Hd.
+Qed.
+
+(* a join after every history: the initial data goes to the joiner, once, after the room reply, it is the data of the
+   room, it is not empty, and no other transient message is written to anybody *)
+Theorem join_initial_history limits gated ops c rn rs rep :
+  join_writes c rn (step (run (init limits gated) ops) (OJoin c rn rs rep)).
+Proof.
+  apply (step_join_writes _ (snd (grun (init limits gated, g0) ops))); [apply wf_reachable|apply busnt_reachable|apply ri_reachable].
+Qed.
+
+Print Assumptions replica_converges_history.
+Print Assumptions join_initial_history.
+
+(* ------------------------------------------------------------------ non-vacuity: computed histories *)
+(* two sessions; 1 joins room 1 and sets key 1 = 2; 2 joins (gets the data); a second key; 2 is cut; two changes; 2 resumes *)
+Definition hist_ops1 : list op :=
+  [OConnect 1 0; OConnect 2 0; OHello 1 (HV1 0 1 false); OHello 2 (HV1 0 2 false);
+   OJoin 1 1 1 (RepOk None 0); OTransient 1 0 1 2; OJoin 2 1 2 (RepOk None 0); OTransient 1 0 2 3].
+Definition hist_ops2 : list op := hist_ops1 ++ [ODrop 2; OTransient 1 0 1 5; OTransient 1 1 2 0].
+Definition hist_ops3 : list op := hist_ops2 ++ [OConnect 3 0; OHello 3 (HResume (IdPriv 2))].
+Definition st_of (ops : list op) := grun (init [0; 0] false, g0) ops.
+Definition data_of (st : hub * ghost) (k : N * N) := option_map r_transient (room_of (fst st) k).
+Definition queue_of (st : hub * ghost) (x : N) := match get_sess (fst st) x with Some s => s_pending s | None => [] end.
+
+(* the join with data writes the initial data to the joiner *)
+Example hist_join_gets_data :
+  snd (step (fst (st_of [OConnect 1 0; OConnect 2 0; OHello 1 (HV1 0 1 false); OHello 2 (HV1 0 2 false);
+                         OJoin 1 1 1 (RepOk None 0); OTransient 1 0 1 2])) (OJoin 2 1 2 (RepOk None 0))) =
+  [ToBackend (0, 1, 0, 1, 1000002, 1); ToConn 2 (SRoom 1); ToConn 2 (STransient (TInit [(1, 2)]))].
+Proof. vm_compute. reflexivity. Qed.
+(* after the join and a second set: both replicas are the data *)
+Example hist_after_sets :
+  data_of (st_of hist_ops1) (0, 1) = Some [(1, 2); (2, 3)] /\
+  g_rep (snd (st_of hist_ops1)) 1 = Some (1, [(1, 2); (2, 3)]) /\ g_rep (snd (st_of hist_ops1)) 2 = Some (1, [(1, 2); (2, 3)]).
+Proof. vm_compute. repeat split; reflexivity. Qed.
+(* the cut and two changes: the replica of 2 is stale, the notices are queued, replayed they give the data *)
+Example hist_cut_queue :
+  data_of (st_of hist_ops2) (0, 1) = Some [(1, 5)] /\
+  g_rep (snd (st_of hist_ops2)) 2 = Some (1, [(1, 2); (2, 3)]) /\
+  queue_of (st_of hist_ops2) 2 = [STransient (TSet 1 5 (Some 2)); STransient (TRemove 2 (Some 3))] /\
+  replayT (queue_of (st_of hist_ops2) 2) (g_rep (snd (st_of hist_ops2)) 2) = Some (1, [(1, 5)]).
+Proof. vm_compute. repeat split; reflexivity. Qed.
+(* the resume flushes the queue: the replica is the data again *)
+Example hist_resume :
+  snd (step (fst (st_of (hist_ops2 ++ [OConnect 3 0]))) (OHello 3 (HResume (IdPriv 2)))) =
+    [ToConn 3 (SHello 2 2); ToConn 3 (STransient (TSet 1 5 (Some 2))); ToConn 3 (STransient (TRemove 2 (Some 3)))] /\
+  g_rep (snd (st_of hist_ops3)) 2 = Some (1, [(1, 5)]) /\ queue_of (st_of hist_ops3) 2 = [] /\
+  data_of (st_of hist_ops3) (0, 1) = Some [(1, 5)].
+Proof. vm_compute. repeat split; reflexivity. Qed.
+(* a switch of rooms: 2 goes to the empty room 2 (replica reset by the room reply) and back to room 1 (initial data) *)
+Example hist_switch :
+  g_rep (snd (st_of (hist_ops1 ++ [OJoin 2 2 2 (RepOk None 0)]))) 2 = Some (2, []) /\
+  data_of (st_of (hist_ops1 ++ [OJoin 2 2 2 (RepOk None 0)])) (0, 2) = Some [] /\
+  g_rep (snd (st_of (hist_ops1 ++ [OJoin 2 2 2 (RepOk None 0); OTransient 1 0 1 7; OJoin 2 1 2 (RepOk None 0)]))) 2 = Some (1, [(1, 7); (2, 3)]) /\
+  data_of (st_of (hist_ops1 ++ [OJoin 2 2 2 (RepOk None 0); OTransient 1 0 1 7; OJoin 2 1 2 (RepOk None 0)])) (0, 1) = Some [(1, 7); (2, 3)].
+Proof. vm_compute. repeat split; reflexivity. Qed.
+(* the theorem applied to the computed history: the hypotheses of replica_ok are satisfiable (session 2, cut, in room 1) *)
+Example hist_theorem_instance :
+  exists s, get_sess (fst (st_of hist_ops2)) 2 = Some s /\ is_virtual (s_kind s) = false /\ s_room s = Some (0, 1) /\ s_conn s = None.
+Proof. eexists. vm_compute. repeat split; reflexivity. Qed.
